@@ -222,3 +222,57 @@ Example C08_ex_seq_gap :
   let s := fst (f_run f_init (ex_ws 0)) in
   f_seq s = 3 /\ option_map recovered_last_seq (wal_recover (f_wal s)) = Some 1.
 Proof. exact ex_seq_gap. Qed.
+
+
+(** * A failing file-system call during any other step (table write, manifest append, CURRENT
+    switch, file removal) leaves a prefix of that step's file operations applied, the last append
+    possibly partial: that is a crash image of the step. Every such image recovers exactly the
+    acknowledged batches, and recovery from it re-establishes the invariant ([Proto.v], see C02):
+    after the fault is gone and the database is reopened it contains every write that returned Ok. *)
+From Coq Require Import Arith.
+From RainVerif.model Require Import Table TableSpec Gc Recover Proto.
+From RainVerif.proofs Require Import ContentsProofs ProtoDurable ProtoSteps ProtoOpen ProtoInstall ProtoProofs ProtoCrash ProtoHistory.
+
+Theorem C08_fault_crashed_recovers : forall img bs, Crashed img bs -> crash_ok img bs.
+Proof. exact Crashed_crash_ok. Qed.
+Print Assumptions C08_fault_crashed_recovers.
+
+Theorem C08_fault_open_step_crashed : forall o img bs d' ops,
+  Crashed img bs -> open_okb o img = true ->
+  p_open o img = Some (d', ops) ->
+  pd_img d' = apply_fsops img ops /\
+  InvE d' bs /\
+  all_crash (fun i => Crashed i bs) img ops.
+Proof. exact open_step_c. Qed.
+Print Assumptions C08_fault_open_step_crashed.
+
+Theorem C08_fault_write_step_crashed : forall d acked b,
+  InvE d acked -> write_okb d b = true ->
+  let batch := (pd_seq d + 1, b) in
+  Crashed (pd_img d) acked /\
+  forall t, Crashed (apply_fsop (pd_img d) (FsAppend (FWal (pd_wal d)) (firstn t (fst (log_append (pd_wal_boff d) (batch_bytes batch))))))
+                    (if (length (fst (log_append (pd_wal_boff d) (batch_bytes batch))) <=? t)%nat then acked ++ [batch] else acked).
+Proof. exact write_step_crashed. Qed.
+Print Assumptions C08_fault_write_step_crashed.
+
+Theorem C08_fault_rotate_step_crashed : forall d acked,
+  InvE d acked -> (pd_imm d <> None \/ rotate_okb d = true) ->
+  all_crash (fun i => Crashed i acked) (pd_img d) (snd (p_rotate d)).
+Proof. exact rotate_step_crashed. Qed.
+Print Assumptions C08_fault_rotate_step_crashed.
+
+Theorem C08_fault_flush_step_crashed : forall d acked level size seq d' ops,
+  InvE d acked -> (pd_imm d = None \/ flush_okb d level size seq = true) ->
+  p_flush d level size seq = Some (d', ops) ->
+  all_crash (fun i => Crashed i acked) (pd_img d) ops.
+Proof. exact flush_step_crashed. Qed.
+Print Assumptions C08_fault_flush_step_crashed.
+
+Theorem C08_fault_install_step_crashed : forall d acked deleted added pointers seq d' ops,
+  InvE d acked ->
+  install_okb d deleted added pointers seq = true ->
+  install_preserves d deleted added pointers seq ->
+  p_install d deleted added pointers seq = Some (d', ops) ->
+  all_crash (fun i => Crashed i acked) (pd_img d) ops.
+Proof. exact install_step_crashed. Qed.
+Print Assumptions C08_fault_install_step_crashed.
